@@ -22,7 +22,7 @@ RULE = ("seeded base circuits: one-qubit random Rz.Ry.Rz products and named gate
         "different from V")
 MANDATORY = ["li_complex_nonsymmetric", "mle_complex_nonsymmetric", "gate_fidelity_other_target",
              "gate_fidelity_same_target", "two_qubit_li", "two_qubit_entangling", "direct_herald",
-             "tomography_object_reused_after_edit"]
+             "tomography_object_reused_after_edit", "unnormalised_counts"]
 DECIDING = ["li_postconditions", "mle_postconditions", "gate_fidelity_postconditions", "callback_pairs_answered",
             "earlier_objects_rechecked"]
 BUDGET = {"quick": 40, "thorough": 600}
@@ -70,11 +70,18 @@ def run(ctx):
     State = lw.State
     tomo = lw.tomography
 
+    scale_mode = [1.0]
+
     def experiment(circuits, inputs):
         out = []
         for c, s in zip(circuits, inputs):
             ctx.count("callback_pairs_answered")
-            out.append(tomoref.dual_rail_probs(c, list(s), State))
+            probs = tomoref.dual_rail_probs(c, list(s), State)
+            if scale_mode[0] != 1.0:
+                # counts need not be normalised: any common positive factor per result must give the same answer
+                f = scale_mode[0] * float(rng.choice([1.0, 3.0, 0.25]))
+                probs = {k_: v_ * f for k_, v_ in probs.items()}
+            out.append(probs)
         return out
 
     earlier: list = []
@@ -109,7 +116,10 @@ def run(ctx):
             continue
         complex_nonsym = bool(np.max(np.abs(v - v.T)) > 0.05 and np.max(np.abs((v / v.flat[np.argmax(np.abs(v))]).imag)) > 0.05)
         d = 2 ** n
-        case = {"n": n, "base": log, "method": method, "base_presented_as": variant}
+        scale_mode[0] = float(rng.choice([1.0, 1.0, 1e6, 1e-3, 12345.0]))
+        if scale_mode[0] != 1.0:
+            ctx.bucket("unnormalised_counts")
+        case = {"n": n, "base": log, "method": method, "base_presented_as": variant, "count_scale": scale_mode[0]}
         if n == 2 and ent:
             ctx.bucket("two_qubit_entangling")
         fp = circmon.circuit_fingerprint(base, with_unitary=True)
